@@ -20,14 +20,17 @@ Connect == /\ Live("connect")
 Call == /\ Live("call")
         /\ LET aliveNow == s.alive /\ E.killed_before = 0
                usable == (E.consumed = <<>> /\ aliveNow) \/ (E.consumed # <<>> /\ Last(E.consumed) = "S")
-               charged == \E i \in 1..Len(E.consumed) : E.consumed[i] = "F" IN
+               charged == \E i \in 1..Len(E.consumed) : E.consumed[i] = "F"
+               \* a call whose deadline had expired before it was issued (grpc-timeout 0) may be cut off with CANCELLED instead of being
+               \* answered; it still went through the channel, so what it leaves behind is what an answered call would have left
+               cutOff == Has(E, "zero") /\ E.zero /\ E.res = "err" /\ E.code = 1 IN
            /\ JudgeK(<< <<"C14.EveryCallCompletes", E.res # "hang">>,
-                        <<"C14.SucceedsWhenPeerReachable", usable => E.res = "ok">>,
-                        <<"C14.FailureOnlyToTriggeringCall", E.res = "err" => charged>>,
-                        <<"C14.UnavailableWhileNoConnection", (E.res = "err" /\ charged /\ ~usable) => E.code = 14>>,
+                        <<"C14.SucceedsWhenPeerReachable", usable => (E.res = "ok" \/ cutOff)>>,
+                        <<"C14.FailureOnlyToTriggeringCall", (E.res = "err" /\ ~cutOff) => charged>>,
+                        <<"C14.UnavailableWhileNoConnection", (E.res = "err" /\ ~cutOff /\ charged /\ ~usable) => E.code = 14>>,
                         <<"C14.NoSuccessWithoutConnection", E.res = "ok" => usable>>,
                         <<"HarnessOK", s.connected>> >>,
-                     [s EXCEPT !.alive = (E.res = "ok"), !.ncalls = @ + 1])
+                     [s EXCEPT !.alive = IF cutOff THEN usable ELSE (E.res = "ok"), !.ncalls = @ + 1])
            /\ Count((IF E.res = "ok" THEN {"calls_ok"} ELSE {"calls_unavailable"}) \cup (IF E.killed_before > 0 THEN {"drops"} ELSE {})
                     \cup (IF E.consumed # <<>> /\ s.ncalls > 0 THEN {"reconnects"} ELSE {}))
 Ignore == /\ l <= Len(Rec) /\ ~dead /\ E.e \in {"srv_req", "summary", "hook", "connector", "kill", "issue"} /\ l' = l + 1 /\ UNCHANGED <<run, dead, bad, s, stats>>
